@@ -19,9 +19,21 @@ MODEL_VO = ["theories/Model/Periodic.vo"]
 COQ_IMPORTS = "From CV Require Import Model.Periodic."
 COQ_RUN = "run_periodic"
 COQ_CASE_TYPE = "periodic_case"
+ANCHORS = [("canopen.network", "PeriodicMessageTask"), ("canopen.network", "Network.send_periodic"),
+           ("canopen.network", "Network.disconnect"), ("canopen.network", "Network.send_message"),
+           ("canopen.sync", "SyncProducer.start"), ("canopen.sync", "SyncProducer.stop"), ("canopen.sync", "SyncProducer.__init__"),
+           ("canopen.pdo.base", "PdoMap.start"), ("canopen.pdo.base", "PdoMap.stop"), ("canopen.pdo.base", "PdoMap.update"),
+           ("canopen.pdo.base", "PdoBase.stop"), ("canopen.pdo", "PDO.__init__"), ("canopen.pdo.base", "PdoVariable.set_data"),
+           ("canopen.pdo.base", "PdoMap.__getitem__"),
+           ("canopen.nmt", "NmtSlave.send_command"), ("canopen.nmt", "NmtSlave.on_command"), ("canopen.nmt", "NmtSlave.on_write"),
+           ("canopen.nmt", "NmtSlave.start_heartbeat"), ("canopen.nmt", "NmtSlave.stop_heartbeat"),
+           ("canopen.nmt", "NmtSlave.update_heartbeat"), ("canopen.nmt", "NmtSlave.__init__"),
+           ("canopen.nmt", "NmtBase.send_command"), ("canopen.nmt", "NmtBase.on_command"),
+           ("canopen.nmt", "NmtMaster.start_node_guarding"), ("canopen.nmt", "NmtMaster.stop_node_guarding"),
+           ("canopen.node.local", "LocalNode.set_data"), ("canopen.node.local", "LocalNode.__init__")]
 RULE = ("case = bus flavour (cyclic tasks with / without modify_data), node ids, default of object 0x1017, 1..6 PDO maps "
         "(COB-ID, initial payload) on the rpdo/tpdo of a remote and a local node, and a call sequence over SYNC producer, "
-        "PDO maps, heartbeat producer (start/stop/update, NMT commands sent and received, writes of 0x1017 and of another "
+        "PDO maps (incl. assignments of the cob_id / period attributes followed by start() with the same or no period), heartbeat producer (start/stop/update, NMT commands sent and received, writes of 0x1017 and of another "
         "object), node guarding and Network.disconnect; periods 0, omitted, 1 ms .. 100 s, heartbeat times 0..65535; "
         "the live set (task id, CAN id, payload, period, remote flag) is compared after every call; "
         "non-trivial = some producer is operated on again while its task is running (restart, update, stop, disconnect); "
@@ -131,6 +143,15 @@ def _apply(op, bus, net, loc, rem, maps):
     if k == "GuardStart": return rem.nmt.start_node_guarding(_sec(op[1]))
     if k == "GuardStop": return rem.nmt.stop_node_guarding()
     if k == "Disconnect": return net.disconnect()
+    if k == "SyncSetPeriod":
+        net.sync.period = _sec(op[1])
+        return None
+    if k == "PdoSetCob":
+        maps[op[1]].cob_id = op[2]
+        return None
+    if k == "PdoSetPeriod":
+        maps[op[1]].period = _sec(op[2])
+        return None
     raise ValueError(k)
 
 
@@ -181,6 +202,12 @@ class _Spec:
                 may["sync"] = [self.run["sync"], None]      # invalid period: nothing new may start
         elif k == "SyncStop":
             must["sync"] = None
+        elif k == "SyncSetPeriod":
+            self.sync_attr = op[1]          # takes effect at the next start(); the running task is untouched
+        elif k == "PdoSetCob":
+            self.pdo[op[1]]["cob"] = op[2]
+        elif k == "PdoSetPeriod":
+            self.pdo[op[1]]["attr"] = op[2]
         elif k in ("PdoStart", "PdoStop", "PdoUpdate", "PdoPoke", "PdoAssign", "PdoSetVar"):
             j = op[1]
             P, key = self.pdo[j], f"pdo{j}"
@@ -337,7 +364,9 @@ def oracle(c, o):
 def _gop(op):
     k = op[0]
     if k in ("SyncStop", "HbStop", "HbUpdate", "GuardStop", "Disconnect"): return k
-    if k == "SyncStart": return f"SyncStart {gopt(op[1])}"
+    if k in ("SyncStart", "SyncSetPeriod"): return f"{k} {gopt(op[1])}"
+    if k == "PdoSetCob": return f"PdoSetCob {op[1]}%nat {gz(op[2])}"
+    if k == "PdoSetPeriod": return f"PdoSetPeriod {op[1]}%nat {gopt(op[2])}"
     if k == "PdoStart": return f"PdoStart {op[1]}%nat {gopt(op[2])}"
     if k in ("PdoStop", "PdoUpdate"): return f"{k} {op[1]}%nat"
     if k in ("PdoPoke", "PdoSetVar"): return f"{k} {op[1]}%nat {op[2]}%nat {gz(op[3])}"
@@ -398,6 +427,45 @@ def _hbtime(rng):
     return rng.choice(HB_TIMES) if rng.random() < 0.6 else rng.randint(0, 65535)
 
 
+COBS = [0x181, 0x1C2, 0x203, 0x7FF, 0x800, 0x80, 0x702, 0x1ABCDE]
+
+
+def _cob(rng, c, j):
+    return rng.choice(COBS + [c["pdos"][j][0], rng.randint(1, 0x7FF)])
+
+
+def attr_restart(rng, c):
+    """assign cob_id / period (or SyncProducer.period) while running, then start() again with the same or no period"""
+    ops = []
+    if rng.random() < 0.75:
+        j = rng.randrange(len(c["pdos"]))
+        p = rng.choice([1, 10, 100, 500, rng.randint(1, 5000)])
+        ops.append(["PdoStart", j, p])
+        if rng.random() < 0.4:
+            ops.append(gen_op(rng, c))
+        new_p = p
+        how = rng.random()
+        if how < 0.45 or how > 0.8:
+            ops.append(["PdoSetCob", j, _cob(rng, c, j)])
+        if how > 0.45:
+            new_p = rng.choice([p + 1, 2 * p, 1, p, None, 0])
+            ops.append(["PdoSetPeriod", j, new_p])
+        if rng.random() < 0.3:
+            ops.append(rng.choice([["PdoUpdate", j], ["PdoSetVar", j, 0, rng.randrange(256)], gen_op(rng, c)]))
+        ops.append(["PdoStart", j, rng.choice([None, None, p, new_p])])
+        if rng.random() < 0.5:
+            ops.append(rng.choice([["PdoStop", j], ["PdoStart", j, None], ["PdoUpdate", j]]))
+    else:
+        p = rng.choice([1, 10, 100, rng.randint(1, 5000)])
+        ops.append(["SyncStart", p])
+        new_p = rng.choice([p + 1, 2 * p, 1, p, None, 0])
+        ops.append(["SyncSetPeriod", new_p])
+        ops.append(["SyncStart", rng.choice([None, None, p, new_p])])
+        if rng.random() < 0.5:
+            ops.append(rng.choice([["SyncStop"], ["SyncStart", None]]))
+    return ops
+
+
 def gen_config(rng):
     local = rng.choice([1, 2, 5, 64, 126, 127, rng.randint(1, 127)])
     remote = rng.choice([x for x in (1, 2, 3, 10, 127, rng.randint(1, 127)) if x != local])
@@ -415,7 +483,8 @@ def gen_op(rng, c, focus=None):
     npdo = len(c["pdos"])
     fam = focus or rng.choice(["sync", "pdo", "pdo", "pdo", "hb", "hb", "hb", "guard", "disc"])
     if fam == "sync":
-        return rng.choice([["SyncStart", _period(rng)], ["SyncStart", _period(rng)], ["SyncStop"]])
+        return rng.choice([["SyncStart", _period(rng)], ["SyncStart", _period(rng)], ["SyncStart", None], ["SyncStop"],
+                           ["SyncSetPeriod", _period(rng)]])
     if fam == "guard":
         return rng.choice([["GuardStart", _period(rng, False)], ["GuardStart", _period(rng, False)], ["GuardStop"]])
     if fam == "disc":
@@ -424,6 +493,8 @@ def gen_op(rng, c, focus=None):
         j = rng.randrange(npdo)
         ln = len(c["pdos"][j][1])
         r = rng.random()
+        if r < 0.06: return ["PdoSetCob", j, _cob(rng, c, j)]
+        if r < 0.11: return ["PdoSetPeriod", j, _period(rng)]
         if r < 0.3: return ["PdoStart", j, _period(rng)]
         if r < 0.4: return ["PdoStop", j]
         if r < 0.55: return ["PdoUpdate", j]
@@ -449,7 +520,12 @@ def gen_seq(rng, maxlen):
         focus = rng.choice(["sync", "pdo", "hb", "guard"])
     ops = []
     for _ in range(n):
-        ops.append(gen_op(rng, c, focus if rng.random() < 0.8 else None))
+        if rng.random() < 0.04:
+            ops += attr_restart(rng, c)
+        else:
+            ops.append(gen_op(rng, c, focus if rng.random() < 0.8 else None))
+    if style > 0.88:
+        ops = attr_restart(rng, c) + ops[:rng.randrange(0, 6)] + attr_restart(rng, c)
     if rng.random() < 0.3:
         ops.append(["Disconnect"])
         for _ in range(rng.randrange(0, 4)):
@@ -477,6 +553,14 @@ def boundary_cases():
         mk([["PdoStart", 0, 500], ["PdoPoke", 0, 2, 255], ["PdoUpdate", 0], ["PdoUpdate", 0], ["PdoAssign", 0, [1, 2, 3]], ["PdoUpdate", 0], ["PdoPoke", 0, 0, 0], ["PdoPoke", 0, 0, 1], ["PdoUpdate", 0]])
         mk([["PdoStart", 1, 10], ["PdoAssign", 1, [1, 2]], ["PdoUpdate", 1], ["PdoAssign", 1, [5]], ["PdoUpdate", 1], ["PdoSetVar", 1, 1, 4], ["PdoStart", 1, None]])
         mk([["PdoStart", 2, 10], ["PdoUpdate", 2], ["PdoPoke", 2, 0, 1], ["PdoSetVar", 2, 0, 1], ["PdoStop", 2]])
+        # attributes assigned while running, then start() with the same / no period
+        mk([["PdoStart", 0, 100], ["PdoSetCob", 0, 0x1C2], ["PdoStart", 0, None], ["PdoSetCob", 0, 0x1C3], ["PdoStart", 0, 100], ["PdoStop", 0]])
+        mk([["PdoStart", 1, 100], ["PdoSetPeriod", 1, 200], ["PdoStart", 1, None], ["PdoSetPeriod", 1, 300], ["PdoUpdate", 1], ["PdoStart", 1, 300],
+            ["PdoSetPeriod", 1, None], ["PdoStart", 1, None], ["PdoSetPeriod", 1, 0], ["PdoStart", 1, None]])
+        mk([["PdoSetCob", 0, 0x800], ["PdoSetPeriod", 0, 50], ["PdoStart", 0, None], ["PdoSetVar", 0, 0, 1], ["PdoSetCob", 0, 0x203], ["PdoSetVar", 0, 0, 2],
+            ["PdoStart", 0, 50], ["Disconnect"]])
+        mk([["SyncStart", 100], ["SyncSetPeriod", 200], ["SyncStart", None], ["SyncSetPeriod", 0], ["SyncStart", None], ["SyncSetPeriod", None],
+            ["SyncStart", None], ["SyncStart", 300], ["SyncSetPeriod", 300], ["SyncStart", 300]])
         # heartbeat: boot, 0x1017, state changes, reset
         mk([["NmtCmd", 128], ["ObjWrite", HB_INDEX, 1000], ["NmtCmd", 1], ["NmtCmd", 1], ["NmtCmd", 129], ["NmtCmd", 128], ["ObjWrite", HB_INDEX, 0], ["NmtCmd", 2]])
         mk([["NmtCmd", 128], ["NmtCmd", 1], ["NmtRecv", 2, 2], ["NmtRecv", 1, 0], ["NmtRecv", 128, 3], ["NmtCmd", 130], ["NmtRecv", 128, 2]], hb_default=250)
